@@ -234,9 +234,8 @@ def run(repo, chk):
                 if e.kind == 'assign' and e.target == 'self.stack' and 'static_array_size=' in src(e.value):
                     # +static_size: the array is counted from here on; -static_size: no longer counted
                     accounted = 'static_array_size=-' not in src(e.value).replace(' ', '')
-                if e.kind == 'call' and e.func == '.update' and e.recv is not None and src(e.recv) == 'self.checkpoints' \
-                        and 'static_size' in ' '.join(src(a) for a in e.args):
-                    accounted = True
+                # (raising the recorded maximum once with checkpoints.update is NOT accounting: what is reserved afterwards is
+                # measured from self.stack, which then still lacks the array)
                 reserving = (e.kind == 'sub' and e.func in RESERVING_SUBS) or (e.kind == 'call' and e.func in RESERVING_CALLS)
                 if reserving and not accounted:
                     findings.add(e.short().split('=')[-1].strip()[:60])
@@ -664,11 +663,29 @@ def _caller_reservation(gf, entry):
                 # guarded by a condition mentioning the routine or write(int)
                 p = parent(n)
                 guard = ''
+                tests = []
                 while p is not None and not isinstance(p, ast.FunctionDef):
                     if isinstance(p, ast.If):
                         guard += src(p.test)
+                        tests.append(p.test)
                     p = parent(p)
-                if 'write_int' in guard or ("'write'" in guard and 'DataType.INT' in guard) or 'stdlib.write_int' in guard:
+                # the guard must name THIS routine: a label comparison whose constant side evaluates to the routine's label
+                # (or a test on the signature write(int), which the dispatch table rule C17.D1 ties to the routine)
+                names_entry = False
+                from ..consteval import Env as _Env
+                ns_ = gf.module_ns()
+                it_ = gf.repo.__dict__['_gen_ns']['it']
+                for t_ in tests:
+                    for c_ in ast.walk(t_):
+                        if isinstance(c_, ast.Compare) and len(c_.ops) == 1 and isinstance(c_.ops[0], ast.Eq):
+                            for side in (c_.left, c_.comparators[0]):
+                                try:
+                                    v_ = it_.eval(side, _Env(ns_, {}))
+                                except Exception:      # noqa: BLE001
+                                    continue
+                                if getattr(v_, 'label_name', None) == entry:
+                                    names_entry = True
+                if names_entry or ("'write'" in guard and 'DataType.INT' in guard):
                     text = src(extra)
                     m = re.fullmatch(r'(\d+) \* self\.word_size', text) or re.fullmatch(r'self\.word_size \* (\d+)', text)
                     if m:
